@@ -114,7 +114,14 @@ class Check(PropertyCheck):
                 # the schedule whose graph is built is not the dispatcher's first: an episode was abandoned before it
                 lines += slices.abandoned_prelude(rng, jobs)
             tr = gen.Tracker(jobs)
+            refusals = rng.random() < 0.35
             while not tr.done():
+                if refusals and rng.random() < 0.3:
+                    # (a refused request on the way - a machine the operation cannot run on, an operation whose turn has not come:
+                    #  the schedule that is built in the end knows nothing of it)
+                    bad = gen.gen_invalid_request(rng, tr, slices.num_machines_of(jobs))
+                    if bad:
+                        lines.append(f"disp {bad[0]} {bad[1]} {bad[2]}")
                 j, p, m = gen.gen_valid_request(rng, tr)
                 tr.take(j)
                 lines.append(f"disp {j} {p} {m}")
